@@ -196,7 +196,10 @@ func calculateLineCharges(charges []*LineCharge, quantity, sum, total num.Amount
 			if c.Quantity != nil {
 				q = *c.Quantity
 			}
-			c.Amount = c.Rate.Multiply(q)
+			// keep every decimal of the product: Multiply rounds to the
+			// receiver's precision, which may be less than the quantity needs
+			r := c.Rate.RescaleUp(c.Rate.Exp() + q.Exp())
+			c.Amount = r.Multiply(q)
 		}
 		c.Amount = tax.ApplyRoundingRule(rr, cur, c.Amount)
 		total = total.Add(c.Amount)
